@@ -996,6 +996,8 @@ def _read_str(ctx: ReaderContext, raw_string: bool = False) -> str:
             raise ctx.eof_error("Unexpected EOF in string")
         if char == "\\":
             char = reader.next_char()
+            if char == "":
+                raise ctx.eof_error("Unexpected EOF in string")
             if raw_string:
                 s.append("\\")
             elif (escape_char := _STR_ESCAPE_CHARS.get(char, None)) is not None:
